@@ -174,7 +174,8 @@ Fixpoint copy (fx : bool) (fuel : nat) (st : cst) (v : hv) {struct fuel} : res (
               end
         | HSlice _ | HStruct _ | HArray _ =>
             q <~ copy fx f st x ;; Done (fst q, HIface tag (snd q))
-        | HLeaf _ | HPriv _ | HNilIface | HIface _ _ => Done (st, v)
+        | HLeaf _ => Done (st, v)
+        | HPriv _ | HNilIface | HIface _ _ => IllFormed   (* the dynamic value of an interface is a concrete value *)
         end
     end
   end.
